@@ -162,7 +162,10 @@ PROPERTIES = {
                            "child (partition), plain Any otherwise; the default is recorded. Lean: dominance_two_level. bounded "
                            "stand-in: default_prios, _vectors_from_prios through select (sequences, batches, named groups) and the "
                            "lexicographic ranking of ALL pairs of feasible points of small configurators."},
-    "C15": {"harness_modules": ["contracts.c15"], "rt": ["rt.config:c15_bridge"], "level": "other", "assumptions": S_ALL +
+    "C15": {"harness_modules": ["contracts.c15", "contracts.c14"],
+            "harness_filter": only("AtLeast.solve", "ge_polyhedron_config.select", "StingyConfigurator.select",
+                                   "ge_polyhedron_config._vectors_from_prios"),
+            "rt": ["rt.config:c15_bridge"], "level": "other", "assumptions": S_ALL +
             ["to_ge_polyhedron / _vectors_from_prios are replaced on the receiver by stubs returning a prepared polyhedron / objective matrix "
              "with symbolic entries (their own contracts: C01, C13/C14); optimality of an exact solver's answer over that polyhedron is the "
              "solver's contract, and satisfaction of safe models is C02"],
